@@ -1,3 +1,141 @@
 import Driver.Common
-/-! stub: replaced by the owner of this driver -/
-def main : IO Unit := Driver.run () (fun s _ => (s, "bad-op"))
+import ScionVerif.Model.Token
+/-! line-protocol driver for the SNAP token verifier model (C10)
+
+```
+cfg                                             -> cfg <alg,..> <required,..> <leeway> <rejectIn> <exp> <nbf> <audOn> <aud|-> <iss|-> <sub|->
+v <now> K<static> E<id,..> J-|J<hexkid>=<id>;.. A<hexalg> N|S<hexkid> B|G<id,..> PB|PJ|PN|PO <hexname>=<val> ...
+                                                -> ok <ver> <exp> | err <label>
+life <exp> <nowNs>                              -> some <ns> | none | panic
+uuid <hex> / pssid1 <hex>                       -> true | false
+```
+claim values: `n` null, `t`/`f` bool, `u<dec>` u64, `i` negative integer, `d<dec>` float that rounds to that
+u64, `x` other float, `s<hex>` string, `a<hex>,<hex>..` array of strings (`a` = empty), `m` other array, `o` non-empty object, `e` empty object.
+-/
+open ScionVerif.Token Driver
+
+def strOfHex (h : String) : Option String :=
+  match parseHex h with
+  | some bs => String.fromUTF8? (ByteArray.mk bs.toArray)
+  | none => none
+
+def natList (s : String) : Option (List Nat) :=
+  if s.isEmpty then some [] else (s.splitOn ",").mapM (·.toNat?)
+
+def errLabel : Err → String
+  | .header => "header"
+  | .unknownKid => "unknown_kid"
+  | .invalidAlgorithm => "invalid_algorithm"
+  | .invalidKeyFormat => "invalid_key_format"
+  | .base64 => "base64"
+  | .invalidSignature => "invalid_signature"
+  | .json => "json"
+  | .missingRequiredClaim => "missing_required_claim"
+  | .invalidClaimFormat => "invalid_claim_format"
+  | .invalidToken => "invalid_token"
+  | .expired => "expired"
+  | .immature => "immature"
+  | .invalidSubject => "invalid_subject"
+  | .invalidIssuer => "invalid_issuer"
+  | .invalidAudience => "invalid_audience"
+  | .panic => "panic"
+
+def parseVal (s : String) : Option JVal :=
+  match s.toList with
+  | ['n'] => some .null
+  | ['t'] => some (.bool true)
+  | ['f'] => some (.bool false)
+  | ['i'] => some (.num .neg)
+  | ['x'] => some (.num (.float none))
+  | ['m'] => some .arr
+  | ['o'] => some (.obj false)
+  | ['e'] => some (.obj true)
+  | 'u' :: r => (String.ofList r).toNat?.map (fun n => .num (.u64 n))
+  | 'd' :: r => (String.ofList r).toNat?.map (fun n => .num (.float (some n)))
+  | 's' :: r => (strOfHex (String.ofList r)).map .str
+  | 'a' :: r =>
+    if r.isEmpty then some (.strs [])
+    else ((String.ofList r).splitOn ",").mapM strOfHex |>.map .strs
+  | _ => none
+
+def parseClaim (w : String) : Option (String × JVal) :=
+  match w.splitOn "=" with
+  | [k, v] => do
+    let k ← strOfHex k
+    let v ← parseVal v
+    pure (k, v)
+  | _ => none
+
+def parseJwks (s : String) : Option (Option (List (String × KeyId))) :=
+  if s == "-" then some none
+  else if s.isEmpty then some (some [])
+  else
+    ((s.splitOn ";").mapM (fun (e : String) =>
+      match e.splitOn "=" with
+      | [k, v] => do
+        let k ← strOfHex k
+        let v ← v.toNat?
+        pure (k, v)
+      | _ => none)).map some
+
+def parsePayload (kind : String) (claims : List String) : Option Payload :=
+  match kind, claims with
+  | "PB", [] => some .badB64
+  | "PJ", [] => some .badJson
+  | "PN", [] => some .nonObj
+  | "PO", cs => (cs.mapM parseClaim).map .obj
+  | _, _ => none
+
+def dropPrefix (c : Char) (s : String) : Option String :=
+  match s.toList with
+  | c' :: r => if c == c' then some (String.ofList r) else none
+  | [] => none
+
+def doVerify (now keyW edW jwksW algW kidW sigW payW : String) (claims : List String) : Option String := do
+  let now ← now.toNat?
+  let static ← (← dropPrefix 'K' keyW).toNat?
+  let eds ← natList (← dropPrefix 'E' edW)
+  let jwks ← parseJwks (← dropPrefix 'J' jwksW)
+  let alg ← strOfHex (← dropPrefix 'A' algW)
+  let kid ← (if kidW == "N" then some none else (dropPrefix 'S' kidW).bind (fun h => (strOfHex h).map some))
+  let (sigB64, oks) ← (if sigW == "B" then some (false, []) else
+    (dropPrefix 'G' sigW).bind (fun l => (natList l).map (fun l => (true, l))))
+  let payload ← parsePayload payW claims
+  let keys : Keys := { static := static, jwks := jwks, edKey := fun k => eds.contains k }
+  let t : ParsedToken := { alg := alg, kid := kid, sigB64 := sigB64, sigOkUnder := fun k => oks.contains k, payload := payload }
+  match verify generatedValidation keys t now with
+  | .ok c => pure s!"ok {c.ver} {c.exp}"
+  | .error e => pure s!"err {errLabel e}"
+
+def optList (l : Option (List String)) : String :=
+  match l with
+  | none => "-"
+  | some xs => "[" ++ ",".intercalate xs ++ "]"
+
+def step (st : Unit) : List String → Unit × String
+  | ["cfg"] =>
+    let c := generatedValidation
+    (st, s!"cfg {",".intercalate c.algorithms} {",".intercalate c.requiredSpecClaims} {c.leeway} {c.rejectExpiringIn} {c.validateExp} {c.validateNbf} {c.validateAud} {optList c.aud} {optList c.iss} {optList (c.sub.map (fun s => [s]))}")
+  | "v" :: now :: keyW :: edW :: jwksW :: algW :: kidW :: sigW :: payW :: claims =>
+    match doVerify now keyW edW jwksW algW kidW sigW payW claims with
+    | some r => (st, r)
+    | none => (st, "bad-op")
+  | ["life", e, n] =>
+    match e.toNat?, n.toNat? with
+    | some e, some n =>
+      match lifetime e n with
+      | .granted d => (st, s!"some {d}")
+      | .past => (st, "none")
+      | .panic => (st, "panic")
+    | _, _ => (st, "bad-op")
+  | ["uuid", h] =>
+    match strOfHex h with
+    | some s => (st, toString (uuidOk s))
+    | none => (st, "bad-op")
+  | ["pssid1", h] =>
+    match strOfHex h with
+    | some s => (st, toString (pssidV1Ok s))
+    | none => (st, "bad-op")
+  | _ => (st, "bad-op")
+
+def main : IO Unit := Driver.run () step
